@@ -385,9 +385,61 @@ def same_state_bound(sf, p1, p2, args):
     return d < 1e-5, f"state distance {d:.3g}"
 
 
+def register_layout_cases(ctx, sf, reqs, pending):
+    """programs continuing parents that deleted DIFFERENT subsystems: registers of the same size but different layout; the same
+    command text then acts on different physical modes, so `==` must say False (and True for equal layouts)"""
+    from strawberryfields import ops
+    rng = ctx.rng
+    for it in range(ctx.n(12, 120)):
+        n = rng.choice([3, 3, 4])
+        d1 = rng.sample(range(n), rng.randint(1, 2))
+        d2 = list(d1) if it % 3 == 0 else rng.sample(range(n), len(d1))
+        alive = [m for m in range(n) if m not in d1 and m not in d2]
+        if not alive:
+            continue
+        m = rng.choice(alive)
+        r_ = rng.choice([0.25, 0.5, -0.375])
+        progs_, parents = [], []
+        for dels in (d1, d2):
+            par = sf.Program(n)
+            with par.context as q:
+                for i in range(n):
+                    ops.Dgate(0.1 * (i + 1), 0.2 * i) | q[i]
+                for x in dels:
+                    ops.Del | q[x]
+            child = sf.Program(par)
+            with child.context as q:
+                ops.Sgate(r_, 0.0) | child.reg_refs[m] if False else ops.Sgate(r_, 0.0) | [r for r in child.register if r.ind == m][0]
+            progs_.append(child); parents.append(par)
+        p1, p2 = progs_
+        same = sorted(d1) == sorted(d2)
+        rp = dict(kind="layout", n=n, d1=d1, d2=d2, m=m, r=r_)
+        ctx.oracle_cases += 1
+        ctx.count("layout:successor-programs", rp, not same, sample=rp)
+        try:
+            eq12, eq21 = bool(p1 == p2), bool(p2 == p1)
+        except Exception as e:  # noqa: BLE001
+            ctx.fail(f"eq-raises:{type(e).__name__}", f"== on successor programs raised {type(e).__name__}: {e}", rp)
+            continue
+        ctx.tally(f"layout:eq={eq12}:same={same}")
+        if eq12 != eq21:
+            ctx.fail("eq-asymmetric", f"p==q is {eq12} but q==p is {eq21} (successor programs, deleted {d1} / {d2})", rp)
+        elif eq12 and not same:
+            ctx.fail("equal-unsound:register-layout", f"successor programs of parents that deleted {d1} resp. {d2} of {n} subsystems are "
+                     f"reported equal although their registers {[r.ind for r in p1.register]} and {[r.ind for r in p2.register]} "
+                     f"consist of different subsystems (run after their parents they act on different modes)", rp)
+        elif same and not eq12:
+            ctx.fail("eq-irreflexive", f"identically built successor programs (deleted {d1}) compare unequal", rp)
+        cmd = [dict(id=0, cls="Sgate", regs=[m], deps=[], pars=[dict(n=rat(r_)), dict(n=rat(0.0))], dagger=False)]
+        reqs.append(dict(op="programEq", l1=cmd, l2=[dict(cmd[0], id=100)], t1="", t2="",
+                         r1=[[r.ind, bool(r.active)] for r in p1.register], r2=[[r.ind, bool(r.active)] for r in p2.register]))
+        pending.append(("programEq", rp, eq12))
+
+
 def run(ctx, sf):
     reqs, pending = [], []
     history_cases(ctx, sf)
+    register_layout_cases(ctx, sf, reqs, pending)
     for base, kind, var in special_angle_pairs():
         one_pair(ctx, sf, base, kind, var, reqs, pending, gaussian_only=True)
     for base, kind, var in corpus():
@@ -411,6 +463,8 @@ def search(ctx, sf):
 def replay(ctx, rp):
     import strawberryfields as sf
     n0 = len(ctx.failures)
+    if rp.get("kind") == "layout":
+        return False        # re-generated by the run (deterministic from the seed); no separate replay
     if rp.get("kind") == "history":
         p1, _ = progs.build(rp["template"], "t")
         p2, _ = progs.build(rp["reference"], "ref")
